@@ -330,6 +330,12 @@ func (g *c18Gen) lower(alias string, us int64) string {
 // castSuffix optionally appends a cast to the literal. A literal carrying a UTC
 // offset that is cast to the zone-less TIMESTAMP is a known finding (DuckDB
 // drops the offset, the pruner applies it).
+// boundLit is a literal bound with a fixed operator (no relative form).
+func (g *c18Gen) boundLit(alias, op string, us int64) string {
+	lit, _ := g.literal(us)
+	return g.timeCol(alias) + g.opsp(op) + "'" + lit + "'" + g.castSuffix(lit)
+}
+
 func (g *c18Gen) castSuffix(lit string) string {
 	switch rapid.IntRange(0, 9).Draw(g.t, "cast") {
 	case 0:
@@ -504,7 +510,10 @@ func c18GenQuery(t *rapid.T, l *c18Layout) c18Query {
 	}
 	q.Tables = []string{main}
 
-	shape := rapid.IntRange(0, 9).Draw(t, "shape")
+	shape := rapid.IntRange(0, 11).Draw(t, "shape")
+	if shape >= 10 {
+		shape = 8 // IN-subquery shapes get extra weight
+	}
 	alias := ""
 	if rapid.Bool().Draw(t, "usealias") || shape >= 7 {
 		alias = "t"
@@ -648,7 +657,43 @@ func c18GenQuery(t *rapid.T, l *c18Layout) c18Query {
 		} else if verifkit.Excluded(c18FAllTables) {
 			verifkit.CountExcluded(c18FAllTables)
 		}
-		q.SQL = g.wsJoin([]string{"SELECT t.id, t.host, t.v", "FROM " + tref + " t", wkw + " " + where + " AND t.host IN (SELECT host FROM " + g.tableRef(other, hdr) + " WHERE " + inner + ")" + comment})
+		innerTable := other
+		if rapid.IntRange(0, 2).Draw(t, "outerwider") > 0 {
+			// The outer range is written first with >= and <, and is strictly
+			// wider than the subquery's own range. The pruner's first-match rule
+			// then takes the OUTER bounds: exact for the outer table, a superset
+			// for the subquery's table - so this shape is sound on the current
+			// implementation even while C18-range-applied-to-every-table is
+			// open (it is not the excluded shape: no table is pruned by a range
+			// that does not contain what it needs).
+			g.feat["subquery-narrower-range"] = true
+			ins := []int64{g.instant(), g.instant(), g.instant(), g.instant()}
+			sort.Slice(ins, func(i, j int) bool { return ins[i] < ins[j] })
+			oa := ins[0] - int64(rapid.IntRange(0, 72).Draw(t, "owa"))*c18HourUs
+			ob := ins[3] + int64(rapid.IntRange(1, 72).Draw(t, "owb"))*c18HourUs
+			outer := []string{g.boundLit("t", ">=", oa), g.boundLit("t", "<", ob)}
+			for i, n := 0, rapid.IntRange(0, 2).Draw(t, "owother"); i < n; i++ {
+				outer = append(outer, g.other("t"))
+			}
+			where = strings.Join(outer, " AND ")
+			lop := rapid.SampledFrom([]string{">=", ">"}).Draw(t, "iwl")
+			uop := rapid.SampledFrom([]string{"<", "<="}).Draw(t, "iwu")
+			ib := ins[2]
+			if uop == "<=" && c18OnHour(ib) && verifkit.Excluded(c18FInclusive) {
+				ib += 17 * 60 * 1000000 // keep clear of the inclusive-end boundary shape
+			}
+			inner = g.boundLit("", lop, ins[1]) + " AND " + g.boundLit("", uop, ib)
+			if rapid.Bool().Draw(t, "iwsame") {
+				innerTable = main
+			}
+			if rapid.Bool().Draw(t, "iwpred") {
+				inner += " AND " + g.other("")
+			}
+		}
+		if innerTable == main {
+			q.Tables = q.Tables[:1]
+		}
+		q.SQL = g.wsJoin([]string{"SELECT t.id, t.host, t.v", "FROM " + tref + " t", wkw + " " + where + " AND t.host IN (SELECT host FROM " + g.tableRef(innerTable, hdr) + " WHERE " + inner + ")" + comment})
 	default:
 		g.feat["union"] = true
 		q.Tables = append(q.Tables, other)
